@@ -95,6 +95,26 @@ func c11One(ws *pipe.Workspace, fam string, idx int64, s *lexref.Spec, depth, L 
 		return out
 	}
 	forByteStrings(c11Symbols, L, check)
+	if len(out) == 0 && (!pairsShort || idx%16 == 0) {
+		// what a state machine has consumed, started or kept pending is its own:
+		// two state machines of the package used in turns do what each does alone
+		var alpha []int
+		for _, r := range lx.Alphabet(b.C, nil) {
+			if r >= 0 && len(alpha) < 4 {
+				alpha = append(alpha, r)
+			}
+		}
+		var inputs [][]int
+		forStrings(alpha, 2, func(w []int) { inputs = append(inputs, append([]int(nil), w...)) })
+		pr2 := lx.Pairs(b, px.NB, inputs)
+		st.Add("instance_pairs", int64(pr2.Pairs))
+		st.Transitions += int64(pr2.Calls)
+		if pr2.Problem != "" {
+			out = append(out, mc.Violation{Property: "C11", Check: "C11", Kind: "instances-interfere", Size: len(s.OneLine())*100 + len(pr2.U) + len(pr2.V),
+				Case:   lexCaseJSON(fam, idx, s, nil, nil, L),
+				Detail: fmt.Sprintf("spec {%s}: %s", s.OneLine(), pr2.Problem)})
+		}
+	}
 	return out
 }
 
@@ -160,6 +180,7 @@ func c11Worker(c *mc.Ctx) {
 	ws := pipe.NewWorkspace("c11")
 	defer ws.Close()
 	depth, L := 4, 5
+	pairsShort = c.Quick()
 	if c.Quick() {
 		depth, L = 3, 4
 	}
@@ -221,6 +242,7 @@ func c11Replay(raw json.RawMessage) *mc.Violation {
 	}
 	ws := pipe.NewWorkspace("c11r")
 	defer ws.Close()
+	pairsShort = false // the two-instance pass on whatever specification is replayed
 	var st mc.Stats
 	var only []byte
 	if lc.Path == nil && lc.Input != nil {
